@@ -221,7 +221,7 @@ func runSeqs(out, plans string, rng *rand.Rand, n, maxops int) int {
 
 // ------------------------------------------------------------------ pure functions
 
-var runePool = []rune{'a', 'b', 'c', 'Z', '0', ' ', '\t', '\n', '\v', '\f', '\r', 0x85, 0xA0, 0x1680, 0x2000, 0x2003, 0x200A,
+var runePool = []rune{'a', 'b', 'c', 'Z', '0', ' ', '\t', '\n', '\v', '\f', '\r', 0x85, 0xA0, 0x1680, 0x2000, 0x2001, 0x2002, 0x2003, 0x2004, 0x2005, 0x2006, 0x2007, 0x2008, 0x2009, 0x200A,
 	0x200B, 0x2028, 0x2029, 0x202F, 0x205F, 0x3000, 0xFEFF, 0x1F, 0xE9, 0x3BB, 0x4E16, 0x1F600, 0x10FFFF, 0x301}
 
 func randStr(rng *rand.Rand, maxLen int) string {
